@@ -972,6 +972,8 @@ fn domain(d: &str) -> Option<(u64, u64, Vec<T>)> {
         ["c11"] => Some((2, 3, alpha("c11")?)),
         ["c11s"] => Some((2, 3, alpha("c11s")?)),
         ["c11r"] => Some((2, 3, alpha("c11r")?)),
+        // the same alphabet under another window (0, 1, 3 = exactly one chunk, 2^64-1) and capacity 0
+        ["c11s", win] => Some((win.parse().ok()?, 0, alpha("c11s")?)),
         ["c13", cap] => Some((4, cap.parse().ok()?, alpha("c13")?)),
         ["c13s", cap] => Some((4, cap.parse().ok()?, alpha("c13s")?)),
         _ => None,
@@ -1155,6 +1157,8 @@ enum COp {
     RIsc,
     RReason,
     RPeer,
+    /// hammer every observer until the other threads are done (class j)
+    Hammer,
 }
 
 fn parse_cop(c: &str) -> Option<COp> {
@@ -1176,6 +1180,7 @@ fn parse_cop(c: &str) -> Option<COp> {
         ("i", 0) => COp::RIsc,
         ("n", 0) => COp::RReason,
         ("g", 0) => COp::RPeer,
+        ("h", 0) => COp::Hammer,
         _ => return None,
     })
 }
@@ -1199,8 +1204,27 @@ fn call_cop(tc: &TransferControl, c: &COp) -> String {
         COp::RPeer => catch(|| tc.peer().map(|p| p.peer_id().0))
             .map(|p| format!("peer {}", p.map(|p| p.to_string()).unwrap_or_else(|| "-".into())))
             .unwrap_or_else(|_| "PANIC".into()),
+        COp::Hammer => "h".into(),
     };
     s.replace(' ', "_")
+}
+
+/// What each observer shows right now, one string per observer (each is one lock region of its own).
+fn observer_views(tc: &TransferControl) -> Vec<String> {
+    let mut v: Vec<String> = [COp::ROff, COp::RIsc, COp::RReason, COp::RPeer].iter().map(|c| call_cop(tc, c)).collect();
+    v.push(
+        catch(|| tc.replay_chunks_from(0))
+            .map(|cs| {
+                let mut t = String::from("ring");
+                for c in cs {
+                    t.push('_');
+                    t.push_str(&show_chunk(&Chunk { off: c.offset, dlen: c.data_len, last: c.last, body: c.body_bytes }));
+                }
+                t
+            })
+            .unwrap_or_else(|_| "PANIC".into()),
+    );
+    v
 }
 
 /// Final observation once every thread is done: the whole visible state, then what a reconnect wait hands over.
@@ -1220,7 +1244,8 @@ fn conc_fresh(window: u64, cap: u64, setup: &[COp]) -> Arc<TransferControl> {
 }
 
 /// Outcomes of every sequential order (program order kept per thread), each run on a fresh real object.
-fn conc_seq_outcomes(window: u64, cap: u64, setup: &[COp], progs: &[Vec<COp>]) -> std::collections::BTreeSet<String> {
+/// … and, when asked, every observer view in every state those orders pass through (`views`).
+fn conc_seq_outcomes_views(window: u64, cap: u64, setup: &[COp], progs: &[Vec<COp>], mut views: Option<&mut std::collections::BTreeSet<String>>) -> std::collections::BTreeSet<String> {
     fn orders(progs: &[Vec<COp>], pos: &mut Vec<usize>, cur: &mut Vec<usize>, out: &mut Vec<Vec<usize>>) {
         if (0..progs.len()).all(|i| pos[i] == progs[i].len()) {
             out.push(cur.clone());
@@ -1243,9 +1268,15 @@ fn conc_seq_outcomes(window: u64, cap: u64, setup: &[COp], progs: &[Vec<COp>]) -
         let tc = conc_fresh(window, cap, setup);
         let mut pos = vec![0usize; progs.len()];
         let mut rets: Vec<Vec<String>> = vec![vec![]; progs.len()];
+        if let Some(v) = views.as_deref_mut() {
+            v.extend(observer_views(&tc));
+        }
         for t in order {
             rets[t].push(call_cop(&tc, &progs[t][pos[t]]));
             pos[t] += 1;
+            if let Some(v) = views.as_deref_mut() {
+                v.extend(observer_views(&tc));
+            }
         }
         let r: Vec<String> = rets.iter().map(|v| v.join(",")).collect();
         res.insert(format!("{}|{}", r.join(";"), conc_final(&tc)));
@@ -1277,12 +1308,74 @@ struct ConcShared {
     quit: std::sync::atomic::AtomicBool,
     rets: Vec<std::sync::Mutex<Vec<String>>>,
     progs: Vec<Vec<COp>>,
+    /// calls finished by the threads that are not hammers
+    done_work: std::sync::atomic::AtomicUsize,
+    /// what the hammer threads saw (distinct views) and what they found wrong on the spot
+    hammer_views: std::sync::Mutex<std::collections::BTreeSet<String>>,
+    hammer_bad: std::sync::Mutex<Vec<String>>,
+    hammer_reads: std::sync::atomic::AtomicU64,
 }
 
 struct ConcResult {
     observed: std::collections::BTreeSet<String>,
     stuck: bool,
     reps: u64,
+    hammer_views: std::collections::BTreeSet<String>,
+    hammer_bad: Vec<String>,
+    hammer_reads: u64,
+}
+
+/// One hammer thread during one race: read every observer over and over until the working threads are done.
+/// Checked on the spot (clauses of the property, no expectation needed): acked <= sent in every `offsets()`,
+/// a transfer seen cancelled stays cancelled, a reason seen stays that reason, time stamps never go back.
+fn hammer(tc: &TransferControl, sh: &ConcShared, until: usize) {
+    use std::sync::atomic::Ordering::{Acquire, Relaxed};
+    let mut seen_cancelled = false;
+    let mut seen_reason: Option<String> = None;
+    let mut stamps: Option<(Instant, Instant)> = None;
+    let mut local: std::collections::BTreeSet<String> = Default::default();
+    let mut bad: Vec<String> = vec![];
+    let mut reads = 0u64;
+    loop {
+        let last_round = sh.done_work.load(Acquire) >= until || sh.quit.load(Acquire);
+        if let Ok((s, a)) = catch(|| tc.offsets()) {
+            if a > s {
+                bad.push(format!("offsets() returned acked {} > sent {}", a, s));
+            }
+        }
+        if let Ok(c) = catch(|| tc.is_cancelled()) {
+            if seen_cancelled && !c {
+                bad.push("is_cancelled() returned false after it had returned true".into());
+            }
+            seen_cancelled |= c;
+        }
+        if let Ok(r) = catch(|| tc.cancel_reason()) {
+            if let (Some(old), new) = (&seen_reason, &r) {
+                if new.as_ref() != Some(old) {
+                    bad.push(format!("cancel_reason() was {}, then {}", show_reason(old), new.as_deref().map(show_reason).unwrap_or_else(|| "-".into())));
+                }
+            }
+            if seen_reason.is_none() {
+                seen_reason = r;
+            }
+        }
+        if let Ok((c, a)) = catch(|| tc.timestamps()) {
+            if let Some((c0, a0)) = stamps {
+                if c < c0 || a < a0 {
+                    bad.push("timestamps() went backwards".into());
+                }
+            }
+            stamps = Some((c, a));
+        }
+        local.extend(observer_views(tc));
+        reads += 9;
+        if last_round || local.len() > 4000 || bad.len() > 8 {
+            break;
+        }
+    }
+    sh.hammer_reads.fetch_add(reads, Relaxed);
+    sh.hammer_views.lock().unwrap().extend(local);
+    sh.hammer_bad.lock().unwrap().extend(bad);
 }
 
 /// Race the programs `reps` times (or until the wall-clock budget is used, at least 20 times).
@@ -1298,8 +1391,13 @@ fn run_conc(window: u64, cap: u64, setup: &[COp], progs: &[Vec<COp>], reps: u64,
         quit: Default::default(),
         rets: (0..t).map(|_| std::sync::Mutex::new(Vec::new())).collect(),
         progs: progs.to_vec(),
+        done_work: Default::default(),
+        hammer_views: Default::default(),
+        hammer_bad: Default::default(),
+        hammer_reads: Default::default(),
     });
-    let mut res = ConcResult { observed: Default::default(), stuck: false, reps: 0 };
+    let n_work = progs.iter().filter(|p| !matches!(p[..], [COp::Hammer])).count();
+    let mut res = ConcResult { observed: Default::default(), stuck: false, reps: 0, hammer_views: Default::default(), hammer_bad: vec![], hammer_reads: 0 };
     let long = Duration::from_secs(3600);
     let mut joins = vec![];
     for ti in 0..t {
@@ -1316,7 +1414,14 @@ fn run_conc(window: u64, cap: u64, setup: &[COp], progs: &[Vec<COp>], reps: u64,
                 if !spin_until(|| sh.ready.load(Acquire) >= rep * sh.progs.len() || sh.quit.load(Acquire), long) || sh.quit.load(Acquire) {
                     return;
                 }
-                let my: Vec<String> = sh.progs[ti].iter().map(|c| call_cop(&tc, c)).collect();
+                let my: Vec<String> = if matches!(sh.progs[ti][..], [COp::Hammer]) {
+                    hammer(&tc, &sh, rep * n_work);
+                    vec!["h".into()]
+                } else {
+                    let my = sh.progs[ti].iter().map(|c| call_cop(&tc, c)).collect();
+                    sh.done_work.fetch_add(1, AcqRel);
+                    my
+                };
                 *sh.rets[ti].lock().unwrap() = my;
                 drop(tc);
                 sh.done.fetch_add(1, AcqRel);
@@ -1350,6 +1455,9 @@ fn run_conc(window: u64, cap: u64, setup: &[COp], progs: &[Vec<COp>], reps: u64,
     for j in joins {
         let _ = j.join();
     }
+    res.hammer_views = std::mem::take(&mut *sh.hammer_views.lock().unwrap());
+    res.hammer_bad = std::mem::take(&mut *sh.hammer_bad.lock().unwrap());
+    res.hammer_reads = sh.hammer_reads.load(Acquire);
     res
 }
 
@@ -1381,6 +1489,10 @@ fn exec_conc(out: &mut Out, line: &str, cfg: &ConcCfg) {
     if progs.is_empty() || progs.len() > 4 || progs.iter().map(|p| p.len()).sum::<usize>() > 9 {
         return bad(out);
     }
+    // a hammer is a program of its own, and somebody has to do the work
+    if progs.iter().any(|p| p.len() > 1 && p.iter().any(|c| matches!(c, COp::Hammer))) || progs.iter().all(|p| matches!(p[..], [COp::Hammer])) {
+        return bad(out);
+    }
     let head = w[..end].join(" ");
     let res = run_conc(window, cap, &setup, &progs, cfg.reps, cfg.budget, cfg.drop_ns);
     if res.stuck {
@@ -1388,7 +1500,25 @@ fn exec_conc(out: &mut Out, line: &str, cfg: &ConcCfg) {
         out.case(&head, &format!("{} conc STUCK", idx), false);
         return;
     }
-    let allowed = conc_seq_outcomes(window, cap, &setup, &progs);
+    let has_hammer = progs.iter().any(|p| p.iter().any(|c| matches!(c, COp::Hammer)));
+    let mut views = std::collections::BTreeSet::new();
+    let allowed = conc_seq_outcomes_views(window, cap, &setup, &progs, if has_hammer { Some(&mut views) } else { None });
+    if has_hammer {
+        out.add("conc.hammer_reads", res.hammer_reads);
+        out.add("conc.hammer_distinct_views", res.hammer_views.len() as u64);
+        // (j) every single observation is what that observer shows in a state some sequential order passes through
+        let mut bad = res.hammer_bad.clone();
+        if let Some(v) = res.hammer_views.iter().find(|v| !views.contains(*v)) {
+            bad.push(format!("an observer returned `{}`, which it returns in no state that a sequential order of the calls passes through ({} admissible views)", v, views.len()));
+        }
+        if let Some(b) = bad.first() {
+            out.oracle_fail(
+                "transfer.conc.observer_saw_inadmissible_state",
+                &format!("while the programs {} ran, a thread that only reads saw: {}", w[6..end].join(" | "), b),
+                &[format!("mode {}", mode_name()), head.clone()],
+            );
+        }
+    }
     out.add("conc.races", res.reps);
     out.add("conc.distinct_outcomes_observed", res.observed.len() as u64);
     out.count(&format!("conc.threads{}", progs.len()));
@@ -1421,6 +1551,11 @@ fn conc_targeted(ring: bool) -> Vec<String> {
         format!("8 8 {} :: r7.0.1 v1,o o,g", setup),
         format!("8 8 {} :: r7.0.2,w c1,o,n a0.1,o", setup),
     ];
+    // (j) threads that only read — offsets, is_cancelled, cancel_reason, peer, time stamps, the ring — while the
+    // calls of the property run
+    v.push(format!("8 8 {} :: r7.0.1 c0,o,i h", setup));
+    v.push(format!("2 8 {} :: s3,a0.3,v1 c5,a0.1,c6 h h", setup));
+    v.push(format!("8 2 {} :: p2.1.1,p3.1.1 r7.0.1,w,v1 h", setup));
     if ring {
         v.push(format!("8 8 {} :: r7.0.1 v0,w,o p2.1.1,y0", setup));
         v.push(format!("8 2 {} :: r7.0.1,w p2.1.1,p3.1.1 y0,o", setup));
@@ -1490,6 +1625,12 @@ fn gen_conc(r: &mut Rng, ring: bool) -> String {
         }
         progs.push(ops.join(","));
     }
+    if progs.len() <= 3 && r.chance(1, 3) {
+        progs.push("h".into());
+        if progs.len() <= 3 && r.chance(1, 3) {
+            progs.push("h".into());
+        }
+    }
     format!("{} {} {} :: {}", window, cap, if setup.is_empty() { "-".into() } else { setup.join(",") }, progs.join(" "))
 }
 
@@ -1498,6 +1639,21 @@ fn gen_conc(r: &mut Rng, ring: bool) -> String {
 // the idle watchdog on a real registry (`watchdog <i>`): a real `spawn_watchdog` thread, a short idle
 // timeout; one-sided waits (the tick is floored at 1 s by the code; we allow 30 s)
 // ------------------------------------------------------------------------------------------
+static WATCHDOG_NOTE: std::sync::Mutex<Vec<String>> = std::sync::Mutex::new(Vec::new());
+
+/// threads of this process named like the watchdog's (`/proc/self/task/*/comm`, 15 characters)
+fn watchdog_threads_alive() -> u64 {
+    let mut n = 0;
+    if let Ok(rd) = std::fs::read_dir("/proc/self/task") {
+        for e in rd.flatten() {
+            if std::fs::read_to_string(e.path().join("comm")).map(|c| c.trim() == "repe-stream-wat").unwrap_or(false) {
+                n += 1;
+            }
+        }
+    }
+    n
+}
+
 fn watchdog_scenario() -> (String, Vec<Fail>) {
     let mut fails: Vec<Fail> = vec![];
     let mut fail = |sig: &str, detail: String| fails.push(Fail { sig: sig.to_string(), detail });
@@ -1541,8 +1697,31 @@ fn watchdog_scenario() -> (String, Vec<Fail>) {
     reg3.register(0, g.clone());
     let reg4: Arc<TransferRegistry<u64>> = Arc::new(TransferRegistry::new());
     reg4.register(u64::MAX, h.clone());
+    // (h) idle timeout 4 s: idle / 4 is exactly the lower clamp of the tick (1 s)
+    let kk = mk();
+    let reg5: Arc<TransferRegistry<u64>> = Arc::new(TransferRegistry::new());
+    reg5.register(11, kk.clone());
+    let kk_born = Instant::now();
+    // (l) a control whose mutex is poisoned sits in a watched registry next to six idle ones: observed only
+    let reg6: Arc<TransferRegistry<u64>> = Arc::new(TransferRegistry::new());
+    let neighbours: Vec<Arc<TransferControl>> = (0..6).map(|_| mk()).collect();
+    for (i, n) in neighbours.iter().enumerate() {
+        reg6.register(i as u64, n.clone());
+    }
+    let poisoned = mk();
+    poisoned.set_peer(PeerHandle::new(PeerId(1), Arc::new(OddSink { kind: 1, back: std::sync::Mutex::new(None) })));
+    {
+        let p2 = poisoned.clone();
+        let _ = catch(move || p2.set_peer(peer(2)));
+    }
+    let really_poisoned = catch(|| poisoned.offsets()).is_err();
+    reg6.register(99, poisoned.clone());
     repe::spawn_watchdog(reg.clone(), Duration::from_millis(30));
+    // (m) a second watchdog on the same registry: both cancel, the first reason stays
+    repe::spawn_watchdog(reg.clone(), Duration::from_millis(40));
     repe::spawn_watchdog(reg2.clone(), Duration::from_secs(3600));
+    repe::spawn_watchdog(reg5.clone(), Duration::from_secs(4));
+    repe::spawn_watchdog(reg6.clone(), Duration::from_millis(30));
     repe::spawn_watchdog(reg3.clone(), Duration::ZERO);
     repe::spawn_watchdog(reg4.clone(), Duration::MAX);
     let t0 = Instant::now();
@@ -1560,6 +1739,11 @@ fn watchdog_scenario() -> (String, Vec<Fail>) {
     // a transfer registered after the watchdog's first scan is seen by a later one (the same thread, the same
     // registry, scanned again and again)
     reg.register(6, l.clone());
+    // (l) … and three more idle ones join the registry with the poisoned control after its watchdog's first scan
+    let late_neighbours: Vec<Arc<TransferControl>> = (0..3).map(|_| mk()).collect();
+    for (i, n) in late_neighbours.iter().enumerate() {
+        reg6.register(50 + i as u64, n.clone());
+    }
     let t1 = Instant::now();
     while !(l.is_cancelled() && g.is_cancelled()) && t1.elapsed() < Duration::from_secs(30) {
         std::thread::sleep(Duration::from_millis(20));
@@ -1573,6 +1757,19 @@ fn watchdog_scenario() -> (String, Vec<Fail>) {
     if h.is_cancelled() {
         fail("transfer.watchdog.cancelled_not_idle", "a transfer under an idle timeout of Duration::MAX was cancelled".into());
     }
+    let kk_early = kk.is_cancelled();
+    if kk_early && kk_born.elapsed() < Duration::from_millis(3500) {
+        fail("transfer.watchdog.cancelled_not_idle", "a transfer under a 4 s idle timeout was cancelled less than 3.5 s after its last activity".into());
+    }
+    while !kk.is_cancelled() && kk_born.elapsed() < Duration::from_secs(34) {
+        std::thread::sleep(Duration::from_millis(50));
+    }
+    if !kk.is_cancelled() {
+        fail("transfer.watchdog.idle_not_cancelled", "a transfer under a 4 s idle timeout (tick at its 1 s clamp) was not cancelled within 34 s".into());
+    }
+    let n_cancelled = neighbours.iter().filter(|n| n.is_cancelled()).count();
+    let n_late = late_neighbours.iter().filter(|n| n.is_cancelled()).count();
+    let neighbour_note = format!("watchdog.poisoned_neighbour.{}.cancelled_{}_of_6.late_{}_of_3", if really_poisoned { "poisoned" } else { "not_poisoned" }, n_cancelled, n_late);
     // give another tick the chance to do more damage, then look
     std::thread::sleep(Duration::from_millis(200));
     let a_after = snap_of(&a);
@@ -1604,7 +1801,11 @@ fn watchdog_scenario() -> (String, Vec<Fail>) {
     drop(reg2);
     drop(reg3);
     drop(reg4);
-    (format!("watchdog A={}/{} B={} C={} D={} E={} G={} H={} L={} reg={}", show(&a), if same { "same" } else { "changed" }, show(&b), show(&c), show(&d), show(&e), show(&g), show(&h), show(&l), if reg_ok { "ok" } else { "bad" }), fails)
+    drop(reg5);
+    drop(reg6);
+    std::mem::forget(poisoned); // dropping a poisoned control is fine, but its Drop-panicking sink is gone anyway
+    WATCHDOG_NOTE.lock().unwrap().push(neighbour_note);
+    (format!("watchdog A={}/{} B={} C={} D={} E={} G={} H={} L={} K={} reg={}", show(&a), if same { "same" } else { "changed" }, show(&b), show(&c), show(&d), show(&e), show(&g), show(&h), show(&l), show(&kk), if reg_ok { "ok" } else { "bad" }), fails)
 }
 
 // ------------------------------------------------------------------------------------------
@@ -1724,6 +1925,62 @@ fn sinks_scenario() -> (Vec<(String, u64)>, Vec<Fail>) {
             fails.extend(lfails);
         }
     }
+    // (m) a cancel issued from a destructor while its thread unwinds (a producer's guard object), with a credit
+    // wait and a reconnect wait parked on the transfer: "every pending … wait reports it", first reason wins
+    {
+        struct CancelOnDrop(Arc<TransferControl>);
+        impl Drop for CancelOnDrop {
+            fn drop(&mut self) {
+                self.0.cancel("producer panicked");
+                self.0.cancel("second thought");
+            }
+        }
+        let tc = TransferControl::with_replay_capacity(2, 8);
+        tc.record_sent(2);
+        let (tx, rx) = std::sync::mpsc::channel();
+        for kind in 0..2u8 {
+            let (tc2, tx2) = (tc.clone(), tx.clone());
+            std::thread::spawn(move || {
+                let r = catch(|| {
+                    if kind == 0 {
+                        match tc2.wait_for_credit(1, Instant::now() + Duration::from_secs(3600)) {
+                            Err(repe::CreditError::Cancelled(r)) => format!("cancelled {}", r),
+                            Err(repe::CreditError::Timeout) => "timeout".to_string(),
+                            Ok(()) => "granted".to_string(),
+                        }
+                    } else {
+                        match tc2.wait_for_reconnect(Duration::from_secs(3600)) {
+                            ReconnectOutcome::Cancelled(r) => format!("cancelled {}", r),
+                            ReconnectOutcome::Timeout => "timeout".to_string(),
+                            ReconnectOutcome::ResumeReady(_) => "resume".to_string(),
+                        }
+                    }
+                });
+                let _ = tx2.send((kind, r.unwrap_or_else(|m| format!("panicked {}", m))));
+            });
+        }
+        std::thread::sleep(Duration::from_millis(30)); // let them park (if they have not, they see the flag on entry)
+        let tc3 = tc.clone();
+        let _ = std::thread::spawn(move || {
+            let _g = CancelOnDrop(tc3);
+            panic!("producer failed");
+        })
+        .join();
+        let reason = catch(|| tc.cancel_reason()).unwrap_or(None);
+        if reason.as_deref() != Some("producer panicked") {
+            fails.push(Fail { sig: "transfer.cancel.not_recorded".into(), detail: format!("cancel(\"producer panicked\") called from a destructor during unwinding left reason {:?}", reason) });
+        }
+        for _ in 0..2 {
+            match rx.recv_timeout(Duration::from_secs(10)) {
+                Ok((_, got)) if got == "cancelled producer panicked" => count("sinks.unwind_cancel.wait_reported".to_string()),
+                Ok((kind, got)) => fails.push(Fail { sig: "transfer.cancel.wait_wrong_reason".into(), detail: format!("a {} wait parked while a destructor cancelled the transfer during unwinding returned `{}`", if kind == 0 { "credit" } else { "reconnect" }, got) }),
+                Err(_) => {
+                    fails.push(Fail { sig: "transfer.cancel.wait_not_reported".into(), detail: "a wait parked on the transfer was still parked 10 s after a destructor cancelled it during unwinding".into() });
+                    break;
+                }
+            }
+        }
+    }
     let sink_calls = SINK_CALLS.load(std::sync::atomic::Ordering::Relaxed);
     // registry: `Default`, a key type with a degenerate Hash, boundary keys, re-use of a key after unregister
     let reg: TransferRegistry<ClashKey> = TransferRegistry::default();
@@ -1769,6 +2026,9 @@ fn exec_watchdog(out: &mut Out, line: &str, res: (String, Vec<Fail>)) {
         }
     }
     out.count("watchdog.scenarios");
+    for k in WATCHDOG_NOTE.lock().unwrap().drain(..) {
+        out.count(&k);
+    }
     out.case(line, &format!("{} {}", idx, res.0), true);
 }
 
@@ -2000,7 +2260,7 @@ fn gen_window(r: &mut Rng) -> u64 {
         0 => 0,
         1 => 1,
         2 | 3 => r.range(2, 64),
-        4 => 1 << 20,
+        4 => if r.chance(1, 2) { 1 << 20 } else { (1u64 << 26) - 1 + r.below(3) }, // around DEFAULT_WINDOW_BYTES
         5 => 1 << 48,
         6 => u64::MAX,
         7 => u64::MAX - r.below(3),
@@ -2015,16 +2275,44 @@ fn gen_capacity(r: &mut Rng) -> u64 {
         1 => 1,
         2 | 3 => r.range(2, 8),
         4 | 5 => r.range(8, 200),
-        6 => 4096,
+        6 => if r.chance(1, 2) { 4096 } else { 65_535 + r.below(3) },
         7 => u64::MAX,
-        8 => 1 << 32,
+        8 => if r.chance(1, 2) { 1 << 32 } else { (1u64 << 26) - 1 + r.below(3) }, // around DEFAULT_REPLAY_RING_BYTES
         _ => r.below(2000),
     }
 }
 
+/// (g) the same call N times back to back: N from the usual thresholds (8, 16, 64, 256 and their neighbours)
+const BURSTS: [u64; 9] = [2, 7, 8, 9, 16, 17, 64, 65, 256];
+
+/// The op to repeat in a burst: a push is re-based so that it abuts what has been pushed so far.
+fn burst_op(op: &Op, ctl: &Ctl) -> Option<Op> {
+    match op {
+        Op::Push(_, d, l, b) => {
+            if b.len() > 1000 {
+                return None;
+            }
+            let edge = match ctl.log.last() {
+                Some(c) => c.off.checked_add(c.dlen)?,
+                None => 0,
+            };
+            edge.checked_add(*d)?;
+            Some(Op::Push(edge, *d, *l, b.clone()))
+        }
+        o => Some(o.clone()),
+    }
+}
+
 fn run_random(ex: &mut Exec, out: &mut Out, rng: &mut Rng, histories: usize, max_len: u64, ring_bias: bool, k: &mut u64) {
+    // (k) the two knobs of a control crossed at their extremes first, then PRNG-chosen pairs
+    let ext = [0u64, 1, u64::MAX];
+    let thorough = histories > 1000;
     for hno in 0..histories {
-        let line = if rng.chance(1, 12) { format!("newdef {} {}", *k, gen_window(rng)) } else { format!("new {} {} {}", *k, gen_window(rng), gen_capacity(rng)) };
+        let line = if hno < 9 {
+            format!("new {} {} {}", *k, ext[hno / 3], ext[hno % 3])
+        } else if hno < 12 {
+            format!("newdef {} {}", *k, ext[hno - 9])
+        } else if rng.chance(1, 12) { format!("newdef {} {}", *k, gen_window(rng)) } else { format!("new {} {} {}", *k, gen_window(rng), gen_capacity(rng)) };
         *k += 1;
         out.begin(&line);
         let (obs, nt) = exec_line(ex, out, &line);
@@ -2059,6 +2347,38 @@ fn run_random(ex: &mut Exec, out: &mut Out, rng: &mut Rng, histories: usize, max
                 }
             }
             out.case(&line, &obs, nt);
+            // (g) now and then the same call N times in a row; in a loop-following history only calls that
+            // do not belong to the producer's own loop
+            let inbound = matches!(op.base(), Op::Ack(..) | Op::Resume(..) | Op::Reconnect | Op::Cancel(..) | Op::Replay(..) | Op::Credit(..) | Op::SetPeer(..));
+            if rng.chance(1, 40) && (!looped || inbound) && !matches!(op, Op::CreditW(_, 2 | 3) | Op::ReconnectW(2 | 3)) {
+                // (a ring of hundreds of chunks is printed in full after every call: keep the longest runs of
+                // pushes rare, and the 1000-in-a-row sweep for the calls with short observations, thorough only)
+                let is_push = matches!(op, Op::Push(..));
+                let n = if thorough && !is_push && rng.chance(1, 12) {
+                    1000
+                } else if !rng.chance(1, if is_push { 8 } else { 3 }) {
+                    *rng.pick(&BURSTS[..8])
+                } else {
+                    *rng.pick(&BURSTS)
+                };
+                out.count(&format!("burst.{}.{}", op.kind(), n));
+                for _ in 1..n {
+                    if ex.ctl.abandoned || ex.ctl.poisoned {
+                        break;
+                    }
+                    let Some(bop) = burst_op(&op, &ex.ctl) else { break };
+                    let line = bop.line(&k.to_string());
+                    *k += 1;
+                    out.begin(&line);
+                    ex.twin_now = rng.chance(1, 16);
+                    let (obs, nt) = exec_line(ex, out, &line);
+                    ex.twin_now = false;
+                    out.case(&line, &obs, nt);
+                }
+                if ex.ctl.abandoned || ex.ctl.poisoned {
+                    break;
+                }
+            }
         }
     }
 }
@@ -2112,20 +2432,33 @@ fn main() {
 
     let thorough = args.thorough();
     let enums: Vec<String> = if family == "credit" {
-        out.rule = "exhaustive: every op sequence of length <= 4 over alphabet c11 (26 ops: sent 1-3, acks file 0/1 x off 0-3, cancel with reason r0 and with the empty string, advance 0/1, resumes, credit 1-3 with window 2, reconnect, 2 pushes), length <= 7 over the 10-op alphabet c11s and length <= 5 over the 12-op alphabet c11r (cancel with 8 reason strings: r0, the watchdog's \"transfer idle\", the empty string, blanks \" \\t\\n\", 65537 x 'x', non-ASCII incl. a 4-byte scalar, a NUL, \" Transfer Idle \"; credit, reconnect, advance, resume) (thorough: <= 5 / <= 8 / <= 6); random: cancel reasons drawn from r0-r2 and (one third) those edge strings; histories of <= 200 ops over the 64-bit boundary lattice (values near sent/acked/window, 2^32, 2^48, 2^63, 2^64-k), hostile acks (future, wrong file, u64::MAX), oversized chunks, one third following the documented producer loop. Distinct by op line; non-trivial = the op changed the observable state or returned something other than unit/timeout".into();
+        out.rule = "exhaustive: every op sequence of length <= 4 over alphabet c11 (26 ops: sent 1-3, acks file 0/1 x off 0-3, cancel with reason r0 and with the empty string, advance 0/1, resumes, credit 1-3 with window 2, reconnect, 2 pushes), length <= 7 over the 10-op alphabet c11s (and <= 5 under windows 0, 1, 3, 2^64-1 with capacity 0) and length <= 5 over the 12-op alphabet c11r (cancel with 8 reason strings: r0, the watchdog's \"transfer idle\", the empty string, blanks \" \\t\\n\", 65537 x 'x', non-ASCII incl. a 4-byte scalar, a NUL, \" Transfer Idle \"; credit, reconnect, advance, resume) (thorough: <= 5 / <= 7 / <= 6); random: the first 12 histories cross window and capacity in {0, 1, 2^64-1} (and `new`); one call in 40 is repeated 2-256 times back to back (thorough: up to 1000); cancel reasons drawn from r0-r2 and (one third) those edge strings; histories of <= 200 ops over the 64-bit boundary lattice (values near sent/acked/window, 2^32, 2^48, 2^63, 2^64-k), hostile acks (future, wrong file, u64::MAX), oversized chunks, one third following the documented producer loop. Distinct by op line; non-trivial = the op changed the observable state or returned something other than unit/timeout".into();
         if thorough {
-            vec!["enum e0 c11 5 3".into(), "enum e1 c11s 8 4".into(), "enum e2 c11r 6 3".into()]
+            // c11s stays at the property's own bound (sequences of length <= 7): length 8 (111 M sequences, 200 s
+            // of CPU) was what made this tier take 20 min on a busy machine
+            let mut v: Vec<String> = vec!["enum e0 c11 5 3".into(), "enum e1 c11s 7 4".into(), "enum e2 c11r 6 3".into()];
+            for (i, w) in [0u64, 1, 3, u64::MAX].iter().enumerate() {
+                v.push(format!("enum w{} c11s.{} 6 3", i, w));
+            }
+            v
         } else {
-            vec!["enum e0 c11 4 4".into(), "enum e1 c11s 7 4".into(), "enum e2 c11r 5 3".into()]
+            let mut v: Vec<String> = vec!["enum e0 c11 4 4".into(), "enum e1 c11s 7 4".into(), "enum e2 c11r 5 3".into()];
+            for (i, w) in [0u64, 1, 3, u64::MAX].iter().enumerate() {
+                v.push(format!("enum w{} c11s.{} 5 3", i, w));
+            }
+            v
         }
     } else {
-        out.rule = "exhaustive: every push/resume/reconnect/advance/cancel/replay sequence of length <= 4 over alphabet c13 (21 ops: chunk sizes 0-2 x wire overhead 0-1, resumes at 0-4 and wrong file) for capacities 0,2,3,2^64-1, length <= 5 for capacity 2, and length <= 7 over the 8-op alphabet c13s for capacities 0,2,3 (thorough: <= 5 all capacities, <= 8); random: histories of <= 200 ops with capacities 0..2^64-1, bodies 0-600 bytes, logical != wire lengths, resumes at ring boundaries / trailing edge / mid-chunk / evicted offsets / hostile values. Distinct by op line; non-trivial = the op changed the observable state or returned something other than unit/timeout".into();
+        out.rule = "exhaustive: every push/resume/reconnect/advance/cancel/replay sequence of length <= 4 over alphabet c13 (21 ops: chunk sizes 0-2 x wire overhead 0-1, resumes at 0-4 and wrong file) for capacities 0,2,3,2^64-1, length <= 5 for capacity 2, and length <= 7 over the 8-op alphabet c13s for capacities 0,2,3 (thorough: <= 5 for capacities 2 and 3, <= 8 for capacity 2 in the dev profile); random: the first 12 histories cross window and capacity in {0, 1, 2^64-1}; one call in 40 is repeated 2-256 times back to back; histories of <= 200 ops with capacities 0..2^64-1, bodies 0-600 bytes, logical != wire lengths, resumes at ring boundaries / trailing edge / mid-chunk / evicted offsets / hostile values. Distinct by op line; non-trivial = the op changed the observable state or returned something other than unit/timeout".into();
         let inf = u64::MAX;
         if thorough {
             let mut v = vec![];
             for (i, cap) in [0, 2, 3, inf].iter().enumerate() {
-                v.push(format!("enum e{} c13.{} 5 3", i, cap));
-                v.push(format!("enum s{} c13s.{} 8 4", i, cap));
+                // the 21-op alphabet to length 5 (4.1 M sequences each) for the two capacities where eviction is
+                // partial; 0 and 2^64-1 stay at the quick depth
+                v.push(format!("enum e{} c13.{} {} 3", i, cap, if *cap == 2 || *cap == 3 { 5 } else { 4 }));
+                // the statement's bound (8 operations) once: capacity 2, dev profile (16.7 M sequences); 7 elsewhere
+                v.push(format!("enum s{} c13s.{} {} 4", i, cap, if cfg!(debug_assertions) && *cap == 2 { 8 } else { 7 }));
             }
             v
         } else {
@@ -2145,7 +2478,7 @@ fn main() {
         exec_enum(&mut out, &line);
     }
     let ring_bias = family == "ring";
-    let (histories, max_len) = if thorough { (6000, 200) } else { (600, 200) };
+    let (histories, max_len) = if thorough { (3000, 200) } else { (600, 200) };
     run_random(&mut ex, &mut out, &mut rng, histories, max_len, ring_bias, &mut k);
 
     if let Some(h) = wd_thread {
@@ -2167,7 +2500,7 @@ fn main() {
 
     // concurrent callers: targeted races first, then generated ones
     out.rule.push_str(" | conc: 2-3 threads x 1-3 calls (resume / cancel / advance / ack / sent / credit / reconnect and the reads offsets, is_cancelled, cancel_reason, peer) released from a spin barrier on one real object whose displaced peer's sink takes a few microseconds to drop; the outcome (all return values + final state + what a reconnect wait hands over) must be the outcome of a sequential order respecting program order, decided on the real object's own sequential runs (oracle) and by the model (diff); non-trivial = more than one sequential outcome");
-    let (t_reps, t_budget, g_n, g_reps, g_budget) = if thorough { (60_000, 2000, 600, 1500, 100) } else { (12_000, 450, 110, 300, 25) };
+    let (t_reps, t_budget, g_n, g_reps, g_budget) = if thorough { (60_000, 1000, 600, 1500, 100) } else { (12_000, 450, 110, 300, 25) };
     let mut ci = 0;
     for spec in conc_targeted(ring_bias) {
         let line = format!("conc q{} {}", ci, spec);
@@ -2177,7 +2510,7 @@ fn main() {
     }
     // generated races stop when their share of the wall clock is used (a saturated machine runs fewer specs,
     // never a different verdict)
-    let g_wall = Duration::from_secs(if thorough { 90 } else { 9 });
+    let g_wall = Duration::from_secs(if thorough { 40 } else { 9 });
     let g_t0 = Instant::now();
     for _ in 0..g_n {
         if g_t0.elapsed() > g_wall {
@@ -2188,6 +2521,10 @@ fn main() {
         ci += 1;
         out.begin(&line);
         exec_conc(&mut out, &line, &ConcCfg { reps: g_reps, budget: Duration::from_millis(g_budget), drop_ns: 8_000 });
+    }
+    // (m) shutdown path of the watchdog: its registries were dropped long ago (ticks are at most 5 s)
+    if family == "credit" {
+        out.add("watchdog.threads_alive_at_end", watchdog_threads_alive());
     }
     out.finish();
 }
